@@ -137,7 +137,7 @@ def run(ctx: Ctx):
     import bellows.config as bc
     rng = ctx.rng
     cases = []
-    n = 60 if ctx.quick else 1500
+    n = 60 if ctx.quick else 10000
     for ver in range(4, 15):
         mod = importlib.import_module(f"bellows.ezsp.v{ver}")
         cls = getattr(mod, f"EZSPv{ver}")
